@@ -46,6 +46,11 @@ type POp struct {
 	Bad  int           `json:"bad,omitempty"` // KAdd only: 1 = also writes an invalid ref name, 2 = limits start at 1 (too low)
 	Txs  []HTx         `json:"txs,omitempty"`
 	Exp  *model.Expiry `json:"exp,omitempty"`
+	// LateClose (KAddMulti that commits at least one table): the Addition's Close is not called
+	// right after Commit but after the process's NEXT operation has run - the documented
+	// idiom `defer tr.Close()` with more work before the function returns.  On a committed
+	// Addition Close has nothing left to release.
+	LateClose bool `json:"late_close,omitempty"`
 }
 
 func (o POp) String() string { return kindNames[o.Kind] }
@@ -89,6 +94,8 @@ type Case struct {
 	Sched        SchedSpec `json:"sched"`
 	Crashes      []Crash   `json:"crashes,omitempty"`
 	YieldOnWrite bool      `json:"yield_on_write,omitempty"`
+	// Family names the generator family the case was drawn from (class statistics only)
+	Family string `json:"family,omitempty"`
 }
 
 // Monitors selects the invariants to evaluate.
@@ -634,11 +641,22 @@ func (e *engine) body(p int) func() {
 				e.handles = append(e.handles, st)
 			}
 		}()
+		var pending *reftable.Addition // committed Addition whose Close is still to come
 		for i := range prog.Ops {
 			rec := e.ops[p][i]
 			rec.started = true
 			verifvfs.Mark("op-start", fmt.Sprintf("%d %s", i, rec.op))
-			e.runOp(p, &st, prog, rec)
+			late := pending
+			pending = nil
+			e.runOp(p, &st, prog, rec, &pending)
+			if late != nil {
+				verifvfs.Mark("late-close", "Close of the Addition committed by the previous operation")
+				late.Close()
+			}
+			if pending != nil && i == len(prog.Ops)-1 {
+				pending.Close()
+				pending = nil
+			}
 			rec.ended = true
 			// M10: what does the handle show now?
 			if st != nil && rec.op.Kind != KClose {
@@ -658,7 +676,7 @@ func (e *engine) body(p int) func() {
 	}
 }
 
-func (e *engine) runOp(p int, stp **reftable.Stack, prog Prog, rec *opRecord) {
+func (e *engine) runOp(p int, stp **reftable.Stack, prog Prog, rec *opRecord, pending **reftable.Addition) {
 	defer func() {
 		if r := recover(); r != nil {
 			if verifvfs.IsCrash(r) {
@@ -735,6 +753,10 @@ func (e *engine) runOp(p int, stp **reftable.Stack, prog Prog, rec *opRecord) {
 			return
 		}
 		rec.err = tr.Commit()
+		if rec.op.LateClose && rec.err == nil && len(rec.tables) > 0 {
+			*pending = tr
+			return
+		}
 		tr.Close()
 	case KCompactAll:
 		if st.String() == "[]" {
@@ -1250,12 +1272,20 @@ func (e *engine) checkQuiescent() error {
 		want[n] = true
 	}
 	var extra []string
+	have := map[string]bool{}
 	for _, f := range ListDir(e.dir) {
+		have[f] = true
 		if f == "tables.list" {
 			continue
 		}
 		if !want[f] {
 			extra = append(extra, f)
+		}
+	}
+	// "exactly tables.list and the tables it names": the other direction
+	for _, n := range names {
+		if !have[n] {
+			return Failf("C16/listed-table-removed", "all handles are idle, none crashed, but table %s named by tables.list is not in the directory (dir %v)", n, ListDir(e.dir))
 		}
 	}
 	sort.Strings(extra)
